@@ -1,5 +1,7 @@
 From Coq Require Import ZArith NArith List Extraction ExtrOcamlBasic.
 From FEC Require Import Models.DataLoaderM.
+From FEC Require Models.LogReaderM Models.DataLoaderLinkM.
 Extraction Language OCaml.
 Set Extraction Output Directory ".".
-Extraction "c12_x.ml" read_gen run_gen current legacy init_state concrete_env spec_messages diag mkArgs mkTr mkMsg.
+Extraction "c12_x.ml" read_gen run_gen current legacy init_state concrete_env spec_messages diag mkArgs mkTr mkMsg
+  DataLoaderLinkM.runner_env LogReaderM.mkFile LogReaderM.mkM.
